@@ -90,7 +90,7 @@ type mpResult struct {
 
 type mpState struct {
 	b      *ssa.BasicBlock
-	pend   []demand
+	pend   []demand // unresolved phi demands and established atom facts (non-phi values)
 	parent *mpState
 	note   string
 }
@@ -236,11 +236,14 @@ func (q *MustPass) search(fn *ssa.Function, acc Accept, depth int, o searchOpts)
 			if status == rPruned {
 				continue
 			}
+			if contradictory(pend) {
+				continue
+			}
 			nacc++
 			if status == rDischarged {
 				continue
 			}
-			enqueue(&mpState{b: b, pend: pend, note: "return at " + q.P.Pos(ret.Pos())})
+			enqueue(&mpState{b: b, pend: dedupDemands(pend), note: "return at " + q.P.Pos(ret.Pos())})
 		}
 	}
 	for len(queue) > 0 {
@@ -308,6 +311,9 @@ func (q *MustPass) search(fn *ssa.Function, acc Accept, depth int, o searchOpts)
 			}
 			if status == rDischarged {
 				continue
+			}
+			if contradictory(newPend) {
+				continue // infeasible: the same value tested with opposite outcomes
 			}
 			enqueue(&mpState{b: p, pend: dedupDemands(newPend), parent: s, note: strings.Join(notes, " ")})
 		}
@@ -446,7 +452,23 @@ func (q *MustPass) resolve(fn *ssa.Function, v ssa.Value, want Pred, depth int) 
 			return rDischarged, nil
 		}
 	}
-	return rDropped, nil
+	// remember the fact: the same SSA value cannot have the opposite polarity on the same path
+	return rPending, []demand{{v, want}}
+}
+
+// contradictory: two facts about the same non-phi value with opposite polarity.
+func contradictory(ds []demand) bool {
+	for i, d := range ds {
+		if _, isPhi := d.v.(*ssa.Phi); isPhi {
+			continue
+		}
+		for _, e := range ds[i+1:] {
+			if e.v == d.v && e.want == d.want.neg() {
+				return true
+			}
+		}
+	}
+	return false
 }
 
 // callAndResult: if v is the result (or an extracted result) of a call, returns the call and result index.
@@ -665,14 +687,16 @@ func (q *MustPass) ForAllBody(fn *ssa.Function, l *Loop, acc Accept, mustEnter b
 }
 
 // forwardToAccept: from block b, moving forward without entering walls, can an accepting return be
-// reached? Uses the phi-edge refinement for bool/error results.
+// reached? Branch conditions crossed on the way are remembered as facts, so that `if err != nil {
+// return nil, err }` is recognised as a rejecting exit.
 func forwardToAccept(q *MustPass, fn *ssa.Function, from *ssa.BasicBlock, walls map[*ssa.BasicBlock]bool, acc Accept) string {
 	type st struct {
-		b    *ssa.BasicBlock
-		prev *ssa.BasicBlock
+		b     *ssa.BasicBlock
+		prev  *ssa.BasicBlock
+		facts []demand
 	}
-	seen := map[*ssa.BasicBlock]bool{}
-	work := []st{{from, nil}}
+	seen := map[string]bool{}
+	work := []st{{from, nil, nil}}
 	for len(work) > 0 {
 		s := work[len(work)-1]
 		work = work[:len(work)-1]
@@ -683,6 +707,7 @@ func forwardToAccept(q *MustPass, fn *ssa.Function, from *ssa.BasicBlock, walls 
 			ds, isAcc := acceptDemands(ret, acc)
 			if isAcc {
 				rejecting := false
+				facts := append([]demand(nil), s.facts...)
 				for _, d := range ds {
 					v := d.v
 					if phi, ok := v.(*ssa.Phi); ok && phi.Block() == s.b && s.prev != nil {
@@ -692,23 +717,41 @@ func forwardToAccept(q *MustPass, fn *ssa.Function, from *ssa.BasicBlock, walls 
 							}
 						}
 					}
-					k, _ := q.resolveNoMatch(fn, v, d.want)
+					k, pp := q.resolveNoMatch(fn, v, d.want)
 					if k == rPruned {
 						rejecting = true
 					}
+					facts = append(facts, pp...)
 				}
-				if !rejecting {
+				if !rejecting && !contradictory(facts) {
 					return fmt.Sprintf("b%d -> return at %s", from.Index, q.P.Pos(ret.Pos()))
 				}
 			}
 			continue
 		}
-		if seen[s.b] {
+		key := pendKey(s.b, s.facts)
+		if seen[key] {
 			continue
 		}
-		seen[s.b] = true
-		for _, n := range s.b.Succs {
-			work = append(work, st{n, s.b})
+		seen[key] = true
+		iff, isIf := s.b.Instrs[len(s.b.Instrs)-1].(*ssa.If)
+		for i, n := range s.b.Succs {
+			facts := s.facts
+			if isIf && s.b.Succs[0] != s.b.Succs[1] {
+				want := True
+				if i == 1 {
+					want = False
+				}
+				k, pp := q.resolveNoMatch(fn, iff.Cond, want)
+				if k == rPruned {
+					continue
+				}
+				facts = dedupDemands(append(append([]demand(nil), s.facts...), pp...))
+				if contradictory(facts) {
+					continue
+				}
+			}
+			work = append(work, st{n, s.b, facts})
 		}
 	}
 	return ""
